@@ -25,7 +25,7 @@ ASSUME = ["reference-ellipsoid constants (a, e) and Earth spin rate are shared w
 SHARDS = {"quick": 4, "thorough": 16}
 BUDGET_S = {"quick": 90, "thorough": 1200}
 DECIDING = ["eci_ecef_roundtrip", "rigid", "lla_roundtrip", "lla_vs_ellipsoid", "sez_roundtrip", "sez_basis", "razel_radec",
-            "rsw_ntw", "rotation_continuity", "rotation_axis", "leap_second_jump", "rot_identities", "skew", "day_of_year"]
+            "rsw_ntw", "rotation_continuity", "rotation_axis", "time_zone_independent", "leap_second_jump", "rot_identities", "skew", "day_of_year"]
 
 MANIFEST = {
     "technique": "runtime monitoring: inverse / rigidity / definition relations evaluated on the real conversion functions over boundary-biased dates and states; Earth-rotation continuity monitor across calendar boundaries and leap seconds",
@@ -384,6 +384,33 @@ def run(ctx):
         k = rng.randrange(1, 80)
         chk_continuity(ctx, eod - timedelta(seconds=k), 0.999, "terrestrial-time-rollover")
         ctx.case(("w", t.isoformat()), sample=None)
+    # the process time zone is part of the environment, not of the input: the rotation for a (naive, UTC) epoch must not depend on it
+    import os
+    import time as _time
+
+    old_tz = os.environ.get("TZ")
+    try:
+        for zone in ("EST5EDT,M3.2.0,M11.1.0", "CET-1CEST,M3.5.0,M10.5.0/3", "NZST-12NZDT,M9.5.0,M4.1.0/3"):
+            for _ in range(ctx.scale(12, 400)):
+                t = _rand_date(rng, whole=rng.random() < 0.7)
+                if rng.random() < 0.4:  # around the zone's clock changes
+                    t = datetime(t.year, rng.choice([3, 3, 4, 9, 10, 11]), rng.randrange(1, 29), rng.randrange(0, 8), rng.choice([0, 50, 59]), 0)
+                if not (D0 + timedelta(days=1) < t < D1):
+                    continue
+                os.environ["TZ"] = "UTC"
+                _time.tzset()
+                ra = _rot(t)
+                os.environ["TZ"] = zone
+                _time.tzset()
+                rb = _rot(t)
+                ctx.check(np.array_equal(ra, rb), "rotation-depends-on-process-time-zone", f"the Earth rotation for the UTC epoch {t.isoformat()} differs between TZ=UTC and TZ={zone} "
+                          f"(angle about the pole {g.rotation_angle_about_z(ra, rb):.6e} rad)", _w("tz", t=t, zone=zone), mon="time_zone_independent")
+    finally:
+        if old_tz is None:
+            os.environ.pop("TZ", None)
+        else:
+            os.environ["TZ"] = old_tz
+        _time.tzset()
     # thorough: every day boundary in the table, each shard takes a slice
     if not ctx.quick:
         day = D0 + timedelta(days=2 + ctx.shard)
@@ -405,7 +432,23 @@ def replay(ctx, w):
     k = w["kind"]
     T = lambda s: datetime.fromisoformat(s)  # noqa: E731
     A = lambda v: np.array(v, dtype=float)  # noqa: E731
-    if k == "eci_ecef":
+    if k == "tz":
+        import os
+        import time as _time
+
+        old_tz = os.environ.get("TZ")
+        try:
+            os.environ["TZ"] = "UTC"
+            _time.tzset()
+            ra = _rot(T(w["t"]))
+            os.environ["TZ"] = w["zone"]
+            _time.tzset()
+            rb = _rot(T(w["t"]))
+        finally:
+            os.environ.pop("TZ", None) if old_tz is None else os.environ.__setitem__("TZ", old_tz)
+            _time.tzset()
+        ctx.check(np.array_equal(ra, rb), "rotation-depends-on-process-time-zone", f"rotation at {w['t']} differs between TZ=UTC and TZ={w['zone']}", w, mon="time_zone_independent")
+    elif k == "eci_ecef":
         chk_eci_ecef(ctx, T(w["t"]), A(w["x"]))
     elif k == "pair":
         chk_pair_geometry(ctx, T(w["t"]), A(w["x1"]), A(w["x2"]))
